@@ -102,7 +102,7 @@ def _cases() -> List[dict]:
 def plan(tier: str) -> dict:
     cases = _cases()
     return {
-        "runs": 15000 if tier == "quick" else 200000,
+        "runs": 15000 if tier == "quick" else 1000000,
         "budget": 150 if tier == "quick" else 900,
         "cases": cases,
         "chunk": 40,
